@@ -69,7 +69,13 @@ fn arg_val(args: &[String], name: &str) -> Option<String> {
     args.iter().position(|a| a == name).and_then(|i| args.get(i + 1).cloned())
 }
 
+/// set for parts whose cases make the code under test panic on purpose (caught decoder panics)
+static QUIET_PANICS: std::sync::atomic::AtomicBool = std::sync::atomic::AtomicBool::new(false);
+
 fn install_panic_hook() {
+    if std::env::var("RV_QUIET_PANICS").is_ok() {
+        QUIET_PANICS.store(true, std::sync::atomic::Ordering::Relaxed);
+    }
     let default = std::panic::take_hook();
     std::panic::set_hook(Box::new(move |info| {
         let msg = info
@@ -78,7 +84,7 @@ fn install_panic_hook() {
             .cloned()
             .or_else(|| info.payload().downcast_ref::<&str>().map(|s| s.to_string()))
             .unwrap_or_default();
-        if msg.starts_with("boom") || std::env::var("RV_QUIET_PANICS").is_ok() {
+        if msg.starts_with("boom") || QUIET_PANICS.load(std::sync::atomic::Ordering::Relaxed) {
             return;
         }
         let _ = &default;
@@ -119,6 +125,9 @@ fn main() {
             let cases: Option<u32> = arg_val(&args, "--cases").and_then(|s| s.parse().ok());
             let p = reg.iter().find(|p| p.prop == prop && p.part == part).expect("unknown part");
             let f = p.shard_fn.expect("part not built into this binary variant");
+            if prop == "C19" {
+                QUIET_PANICS.store(true, std::sync::atomic::Ordering::Relaxed);
+            }
             runner::start_watchdog(30);
             let r = f(tier, seed, shard, of, cases);
             println!("SHARD-RESULT {}", serde_json::to_string(&r).unwrap());
